@@ -21,11 +21,16 @@ type declCase struct {
 	Version *int `json:"version"`
 	// RunAfter: a help request is served (Run) after the declaration of that index, before the next one (absent: none)
 	RunAfter *int `json:"runafter"`
+	// InSub: the declarations are made inside the initialiser of a sub command (no recover around them); then the application's
+	// help is requested, which initialises the sub command for the listing
+	InSub bool `json:"insub"`
 }
 
 type declResult struct {
 	Panics  []bool              `json:"panics"`
 	Msgs    []string            `json:"msgs"`
+	SubPanic *bool              `json:"subpanic,omitempty"` // InSub: did Run (help of the application) panic
+	SubMsg   string             `json:"submsg,omitempty"`
 	Address map[string][]int    `json:"address"` // spelled name -> indices of the declarations whose variable was set
 	RunErr  map[string]string   `json:"runerr,omitempty"`
 }
@@ -58,6 +63,27 @@ func runDecl(c declCase) (r declResult) {
 			}
 		}()
 		f()
+		return
+	}
+	if c.InSub {
+		var lists [][]string
+		var names []string
+		if c.Kind == "opts" {
+			json.Unmarshal(c.Decls, &lists)
+		} else {
+			json.Unmarshal(c.Decls, &names)
+		}
+		app.Command("sub", "a sub command", func(sc *cli.Cmd) {
+			for _, l := range lists {
+				sc.Bool(cli.BoolOpt{Name: strings.Join(l, " ")})
+			}
+			for _, n := range names {
+				sc.String(cli.StringArg{Name: n})
+			}
+			sc.Action = func() {}
+		})
+		p, m := try(func() { app.Run([]string{"app", "--help"}) })
+		r.SubPanic, r.SubMsg = &p, m
 		return
 	}
 	if c.Kind == "opts" {
